@@ -6,7 +6,6 @@ use alloc::{vec, vec::Vec};
 use ixdtf::parsers::records::{TimeZoneRecord, UtcOffsetRecord};
 use num_traits::ToPrimitive;
 
-use crate::builtins::core::duration::DateDuration;
 use crate::parsers::{
     parse_allowed_timezone_formats, parse_identifier, parse_offset, FormattableOffset,
     FormattableTime, Precision,
@@ -19,9 +18,7 @@ use crate::{
     time::EpochNanoseconds,
     TemporalError, TemporalResult, ZonedDateTime,
 };
-use crate::{Calendar, Sign};
-
-const NS_IN_HOUR: i128 = 60 * 60 * 1000 * 1000 * 1000;
+use crate::{Sign, NS_PER_DAY};
 
 /// A UTC time zone offset stored in minutes
 #[derive(Debug, Clone, Copy, PartialEq, Eq)]
@@ -120,6 +117,19 @@ impl TimeZone {
             TimeZone::UtcOffset(offset) => offset.to_string(),
         }
     }
+}
+
+/// The nanoseconds a date-time would denote if it were read as UTC (not range checked).
+fn to_unchecked_utc_reading(iso: &IsoDateTime) -> i128 {
+    let days = i128::from(iso.date.to_epoch_days());
+    let time = &iso.time;
+    let ns_of_day = ((i128::from(time.hour) * 60 + i128::from(time.minute)) * 60
+        + i128::from(time.second))
+        * 1_000_000_000
+        + i128::from(time.millisecond) * 1_000_000
+        + i128::from(time.microsecond) * 1_000
+        + i128::from(time.nanosecond);
+    days * i128::from(NS_PER_DAY) + ns_of_day
 }
 
 impl Default for TimeZone {
@@ -269,49 +279,33 @@ impl TimeZone {
             return Err(TemporalError::range().with_message("Rejecting ambiguous time zones."));
         }
 
-        // NOTE: Below is rather greedy, but should in theory work.
+        // NOTE: A UTC offset is always smaller than a day, so the instants one day
+        // before and one day after the UTC reading of the skipped date-time lie on
+        // either side of the transition that skipped it, whatever the size of the gap
+        // (this is also what the reference implementation of the proposal does).
         //
-        // Primarily moving hour +/-3 to account Australia/Troll as
-        // the precision of before/after does not entirely matter as
-        // long is it is distinctly before / after any transition.
-
         // 6. Let before be the latest possible ISO Date-Time Record for
         //    which CompareISODateTime(before, isoDateTime) = -1 and !
         //    GetPossibleEpochNanoseconds(timeZone, before) is not
         //    empty.
-        let before = iso.add_date_duration(
-            Calendar::default(),
-            &DateDuration::default(),
-            NormalizedTimeDuration(-3 * NS_IN_HOUR),
-            None,
-        )?;
-
         // 7. Let after be the earliest possible ISO Date-Time Record
         //    for which CompareISODateTime(after, isoDateTime) = 1 and !
         //    GetPossibleEpochNanoseconds(timeZone, after) is not empty.
-        let after = iso.add_date_duration(
-            Calendar::default(),
-            &DateDuration::default(),
-            NormalizedTimeDuration(3 * NS_IN_HOUR),
-            None,
-        )?;
-
         // 8. Let beforePossible be !
         //    GetPossibleEpochNanoseconds(timeZone, before).
         // 9. Assert: beforePossible's length is 1.
-        let before_possible = self.get_possible_epoch_ns_for(before, provider)?;
-        debug_assert_eq!(before_possible.len(), 1);
         // 10. Let afterPossible be !
         //     GetPossibleEpochNanoseconds(timeZone, after).
         // 11. Assert: afterPossible's length is 1.
-        let after_possible = self.get_possible_epoch_ns_for(after, provider)?;
-        debug_assert_eq!(after_possible.len(), 1);
+        let utc_reading = to_unchecked_utc_reading(&iso);
+        let day_before = utc_reading - i128::from(NS_PER_DAY);
+        let day_after = utc_reading + i128::from(NS_PER_DAY);
         // 12. Let offsetBefore be GetOffsetNanosecondsFor(timeZone,
         //     beforePossible[0]).
-        let offset_before = self.get_offset_nanos_for(before_possible[0].0, provider)?;
+        let offset_before = self.get_offset_nanos_for(day_before, provider)?;
         // 13. Let offsetAfter be GetOffsetNanosecondsFor(timeZone,
         //     afterPossible[0]).
-        let offset_after = self.get_offset_nanos_for(after_possible[0].0, provider)?;
+        let offset_after = self.get_offset_nanos_for(day_after, provider)?;
         // 14. Let nanoseconds be offsetAfter - offsetBefore.
         let nanoseconds = offset_after - offset_before;
         // 15. Assert: abs(nanoseconds) ≤ nsPerDay.
